@@ -41,7 +41,7 @@ type ScalarCase struct {
 	// builder API (map, url, rm carriers without per-call functions): the rule map is handed to SetRule
 	// while still empty and filled afterwards, before Valid (a rule map is a Go map: the validator sees it live)
 	LateRule bool `json:"laterule,omitempty"`
-	noDup bool
+	noDup    bool
 }
 
 func (c *ScalarCase) callFn(name string) bool {
